@@ -264,7 +264,7 @@ def frames_of(stream):
     return out
 
 
-REQ_TYPES = ('worker', 'pworker', 'ctxcreate', 'ctxdelete', 'ctxworker', 'uctxworker', 'ctxdup')
+REQ_TYPES = ('worker', 'pworker', 'ctxcreate', 'ctxdelete', 'ctxworker', 'uctxworker', 'ctxdup', 'lworker')
 REC_CTX_ID = 7701          # context of the healthy party: exists on every replay server ('ctxworker' requests name it)
 FAULTY_CTX_ID = 7702       # context id used by faulty 'ctxcreate' / 'ctxdelete' requests
 UNKNOWN_CTX_ID = 7703      # exists only while recording: 'uctxworker' = worker request naming an unknown context
@@ -298,6 +298,13 @@ def record_streams(addr):
         w = PersistentRemoteWorker(tg.ident, host=addr, main_path=TARGETS_PATH)
         w.wait(10)
         out['pworker'] = data_frames(tap, 0)
+    with Tap() as tap:          # 'lworker': a one-shot worker whose target keeps running (used for start-ups that race with a stop)
+        w = RemoteWorker(tg.coop_loop, host=addr, main_path=TARGETS_PATH)
+        out['lworker'] = data_frames(tap, 0)
+        try:
+            w.terminate(timeout=5, force=False)
+        except Exception:  # noqa
+            pass
     for name, cid in (('ctxworker', REC_CTX_ID), ('uctxworker', UNKNOWN_CTX_ID)):
         ctx = RemoteContext(cid, host=addr, target=tg.ctx_fun, kwargs={'tok': 5})
         with Tap() as tap:
